@@ -15,11 +15,11 @@ func init() {
 		Patterns: []string{"./idgen/snowflake", "./idgen/nano"},
 		Explanation: "A small static proof per generator, on every path of Generate/GenIDByTS with the clock an arbitrary value: (1) the generator state (time, step / current) is read and written only under the generator's mutex and the id is composed inside the critical section (the no-lock nano generator is externally synchronised by contract and gets obligation 2 only); " +
 			"(2) lexicographic progress: at every return the new state (T1,S1) satisfies T1 > T0, or T1 = T0 and S1 = (S0+1)&stepMax with S1 != 0 (the wrap-increment idiom: with 0<=S0<=stepMax this is S0+1 > S0); for the nano generators current1 > current0 and the result is current1; " +
-			"(3) a wall-clock node never returns a timestamp older than the clock reading it took (T1 = now, or the path established now <= T0); (4) field discipline: step is only ever assigned 0, (..)&stepMax or the masked field of IDFields, node only in the constructor under 0<=node<=nodeMax, and the id is composed from the final time/step and node with figureShift()'s shifts (disjointness of the layout: C07); " +
+			"(3) a wall-clock node never returns a timestamp older than the clock reading it took (T1 = now, or the path established now <= T0); (4) field discipline: step is only ever assigned 0, (..)&stepMax or the masked field of IDFields, node only in the constructor under 0<=node<=nodeMax, and the id is composed from the final time/step and node with figureShift()'s shifts (disjointness of the layout: obligation C06.layout, the rule shared with C07); " +
 			"(5) MonoNode's epoch derives from time.Now() through Add only (monotonic reading preserved) and Generate reads the clock with time.Since(epoch); (6) NewNode seeds time/step with IDFields(last id). " +
 			"NOT decided: uniqueness across nodes, overflow of the timestamp field, the operating system's monotonic-clock contract (assumed for MonoNode: time.Since(epoch) never decreases).",
 		Assumptions: []string{"invariant 0 <= step <= stepMax (established by obligation 4)", "MonoNode: the monotonic clock never decreases"},
-		Floors:      map[string]int{"C06.guarded-by": 4, "C06.progress": 4, "C06.not-older-than-clock": 3, "C06.step-discipline": 2, "C06.node-discipline": 2, "C06.compose": 2, "C06.mono-source": 2, "C06.restart-seed": 4},
+		Floors:      map[string]int{"C06.guarded-by": 4, "C06.progress": 4, "C06.not-older-than-clock": 3, "C06.step-discipline": 2, "C06.node-discipline": 2, "C06.compose": 2, "C06.mono-source": 2, "C06.restart-seed": 4, "C06.layout": 2},
 		Run:         runC06,
 	})
 }
@@ -42,6 +42,8 @@ func runC06(c *Ctx) {
 		}
 		return true
 	}
+	// distinct (time, step) pairs of one node are distinct ids only if the fields do not overlap
+	c.checkSnowflakeLayout("C06.layout")
 	for _, typ := range []string{"HardNode", "MonoNode"} {
 		mu := c.mustField(rel, typ, "mu")
 		tm := c.mustField(rel, typ, "time")
